@@ -19,13 +19,10 @@ Definition slice (s : str) (a b : nat) : res str :=
   if (a <=? b) && (b <=? length s) then Ok (firstn (b - a) (skipn a s)) else Panic.
 
 (** the [for endIdx < len(header)] loop; [rest] is [header[endIdx:]], the result is the final [endIdx].
-<<
-   if header[endIdx] == '"' {
-       if endIdx+1 < len(header) && header[endIdx+1] != ',' { endIdx++; continue }
-       break
-   }
-   endIdx++
->> *)
+    if header[endIdx] is a double quote (34):
+        if endIdx+1 < len(header) and header[endIdx+1] is not a comma (44) then endIdx++, continue
+        else break
+    else endIdx++ *)
 Fixpoint scan_end (rest : str) (i : nat) : nat :=
   match rest with
   | [] => i
@@ -39,11 +36,11 @@ Fixpoint scan_end (rest : str) (i : nat) : nat :=
   end.
 
 Definition get_value_gen (guard : bool) (header key : str) : res str :=
-  match index_of header (key ++ [61%N]) with        (* strings.Index(header, key+"=") *)
+  match index_of header (key ++ [61%N]) with        (* strings.Index(header, key+[=]) *)
   | None => Ok []
   | Some i =>
       let st := i + length key + 2 in                (* startIdx += len(key) + 2 *)
-      if guard && (length header <? st) then Ok []   (* the repair: if startIdx > len(header) { return "" } *)
+      if guard && (length header <? st) then Ok []   (* the repair: if startIdx > len(header), return the empty string *)
       else slice header st (scan_end (skipn st header) st)
   end.
 
@@ -53,7 +50,7 @@ Definition getValue : str -> str -> res str := get_value_gen true.
 (** strings.TrimPrefix *)
 Definition trim_prefix (p s : str) : str := if prefixb p s then skipn (length p) s else s.
 
-Definition s_bearer : str := [66; 101; 97; 114; 101; 114; 32]%N.   (* "Bearer " *)
+Definition s_bearer : str := [66; 101; 97; 114; 101; 114; 32]%N.   (* Bearer + space *)
 Definition s_realm : str := [114; 101; 97; 108; 109]%N.
 Definition s_service : str := [115; 101; 114; 118; 105; 99; 101]%N.
 Definition s_scope : str := [115; 99; 111; 112; 101]%N.
